@@ -3639,7 +3639,7 @@ THEOREMS.update({
                                "Dirk.C11_export_exact", "Dirk.C11_last_is_highest"]),
     "C10": ("Dirk.Props.C10", ["Dirk.C10_never_lowers", "Dirk.C10_protects", "Dirk.C10_composes", "Dirk.C10_range_any", "Dirk.C10_import_command_keeps_invariants", "Dirk.C10_kernel_is_source", "Dirk.facts_store_options", "Dirk.C10_refuses_after_prop",
                                "Dirk.C10_refuses_after_att", "Dirk.C10_bad_metadata", "Dirk.C10_parse_error_no_change",
-                               "Dirk.C10_legacy_counterexample", "Dirk.C10_sequence_never_lowers", "Dirk.C10_sequence_protects"]),
+                               "Dirk.C10_legacy_counterexample", "Dirk.C10_sequence_never_lowers", "Dirk.C10_sequence_protects", "Dirk.C10_sequence_refuses_prop", "Dirk.C10_sequence_refuses_att"]),
     "C07": ("Dirk.Props.C07Refine", ["Dirk.C07_kernel_is_source", "Dirk.C07_precheck_is_source", "Dirk.C07_check_refines_spec", "Dirk.C07_served_has_bearing", "Dirk.C07_scan_eq_spec", "Dirk.C07_default_deny", "Dirk.C07_unknown_client", "Dirk.C07_no_identity",
                                "Dirk.C07_refused_no_effect_att", "Dirk.C07_refused_no_effect_prop", "Dirk.C07_refused_no_effect_sign",
                                "Dirk.C07_refused_no_effect_atts", "Dirk.C07_resolved_account", "Dirk.C07_legacy_counterexample",
